@@ -642,6 +642,43 @@ func c18UDP(c *vk.Ctx, r *rand.Rand, catcher *panicCatcher) bool {
 			return false
 		}
 	}
+	// --- a failure while handling ONE datagram (injected through H2: the write to the target panics,
+	// once): that datagram is lost, the listener and everybody else carry on ---
+	{
+		var armed atomic.Bool
+		var fired atomic.Bool
+		w.rig.Nat.SetOnNew(func(s *NatSock) {
+			if !armed.CompareAndSwap(true, false) {
+				return
+			}
+			s.FailWrite = func(dst net.Addr, n int) error {
+				if fired.CompareAndSwap(false, true) {
+					panic("injected: failure while handling one datagram")
+				}
+				return nil
+			}
+		})
+		armed.Store(true)
+		k := keys[0]
+		if cl, err := newUDPClient(net.IPv4(198, 51, 102, 99).To4(), 0, k); err == nil {
+			c.Progress("C18 udp injected panic in the write to the target")
+			cl.Send(ssUDP(k, randBytes(r, k.Codec().C.SaltSize), w.targets[0].addr(), mkUDPPayload(nextID(c.Batch), 0, 0, 20)), w.rig.Addr4())
+			for dl := time.Now().Add(udpB); !fired.Load() && time.Now().Before(dl); {
+				time.Sleep(time.Millisecond)
+			}
+			time.Sleep(20 * time.Millisecond)
+			cl.Close()
+		}
+		w.rig.Nat.SetOnNew(nil)
+		if fired.Load() {
+			catcher.take() // the server's own recovery logs the injected panic: expected, not a finding
+			c.Eval("udp|fault|panic-while-handling-one-datagram")
+			if !check("a panic while handling one datagram (injected)") {
+				return false
+			}
+			c.Count("udp_injected_panics_survived", 1)
+		}
+	}
 	// --- many clients with expiring associations against concurrent lookups ---
 	stop := make(chan struct{})
 	var wg sync.WaitGroup
@@ -774,7 +811,7 @@ func init() {
 			return "", false
 		},
 		Run: func(c *vk.Ctx) {
-			for _, s := range []string{"tcp_hostile_cases_survived", "udp_hostile_cases_survived", "tcp_shutdown_orderings_checked", "accept_failure_bursts_survived", "udp_writes_straddling_expiry", "udp_reply_cases_v4", "udp_reply_cases_v6", "udp_reply_cases_zoned-link-local", "leak_audits_passed", "close_right_after_accept_orderings_checked"} {
+			for _, s := range []string{"tcp_hostile_cases_survived", "udp_hostile_cases_survived", "tcp_shutdown_orderings_checked", "accept_failure_bursts_survived", "udp_writes_straddling_expiry", "udp_injected_panics_survived", "udp_reply_cases_v4", "udp_reply_cases_v6", "udp_reply_cases_zoned-link-local", "leak_audits_passed", "close_right_after_accept_orderings_checked"} {
 				c.Require(s)
 			}
 			c18Run(c)
